@@ -1,6 +1,6 @@
 // Shared models for all harness modules (compiled only under cfg(kani), inside a scratch copy of the
 // crate).  Nothing here models rPGP itself: these are ideal primitives, sinks and sources.
-#![allow(unused, dead_code, clippy::all)]
+#![allow(unused, dead_code, unsafe_code, static_mut_refs, clippy::all)]
 use std::io::{self, BufRead, Read, Write};
 
 use digest::DynDigest;
@@ -13,6 +13,100 @@ pub fn stub_format(_args: core::fmt::Arguments<'_>) -> String {
 pub fn stub_bt() -> bool {
     false
 }
+/// `format!` is MIR-inlined into its callers, so stubbing std::fmt::format alone leaves
+/// format_inner -> core::fmt::write reachable (Debug of keys, hex encoding, ... for error messages).
+/// Harnesses whose code under test does not produce *output* through fmt stub the engine itself.
+pub fn stub_fmt_write(_out: &mut dyn core::fmt::Write, _args: core::fmt::Arguments<'_>) -> core::fmt::Result {
+    Ok(())
+}
+
+/// Model of `memchr::memchr_iter` (the crate's single call site, in normalize_lines::replace_newlines, is
+/// redirected here in the scratch copy): offsets of `needle` in `hay`, in order.  memchr's x86_64 build
+/// goes through CPUID + SSE2/AVX2 and could not be decided by CBMC even on 2-byte inputs.
+pub struct MemchrModel<'h> {
+    needle: u8,
+    hay: &'h [u8],
+    pos: usize,
+}
+pub fn memchr_iter_model(needle: u8, hay: &[u8]) -> MemchrModel<'_> {
+    MemchrModel { needle, hay, pos: 0 }
+}
+impl Iterator for MemchrModel<'_> {
+    type Item = usize;
+    fn next(&mut self) -> Option<usize> {
+        while self.pos < self.hay.len() {
+            let i = self.pos;
+            self.pos += 1;
+            if self.hay[i] == self.needle {
+                return Some(i);
+            }
+        }
+        None
+    }
+}
+
+/// CPUID is inline asm; report "no optional CPU features" (every dispatcher then takes its baseline path)
+pub fn stub_cpuid(_leaf: u32, _sub: u32) -> core::arch::x86_64::CpuidResult {
+    core::arch::x86_64::CpuidResult { eax: 0, ebx: 0, ecx: 0, edx: 0 }
+}
+
+/// Logging and error-message formatting get empty bodies (scratch-copy substitutions in run.py redirect
+/// `log::{debug,info,warn,...}!` and the `format!` inside the crate's error macros here): `format!` is
+/// MIR-inlined, so a kani::stub of std::fmt::format does not remove the Debug/hex formatting of keys
+/// and signatures that error paths perform, and that formatting dominated symbolic execution.
+macro_rules! vnolog {
+    ($($t:tt)*) => {{}};
+}
+pub(crate) use vnolog as debug;
+pub(crate) use vnolog as error;
+pub(crate) use vnolog as info;
+pub(crate) use vnolog as trace;
+pub(crate) use vnolog as warn;
+macro_rules! nofmt {
+    ($($t:tt)*) => {
+        String::new()
+    };
+}
+pub(crate) use nofmt;
+
+/// Recursion bound for embedded signatures.  SubpacketData::{to_writer,write_len} and the subpacket
+/// parser reach Signature::{to_writer,write_len,try_from_reader} through the EmbeddedSignature variant.
+/// CBMC does not constant-fold the (niche-encoded) discriminant of SubpacketData, so every serialisation
+/// of *any* subpacket explores that variant and recurses up to the unwind bound (measured: serialising a
+/// single creation-time subpacket did not finish in 150 s).  The three call sites are wrapped (scratch-copy
+/// substitution in run.py) in emb_enter()/emb_leave(): nesting deeper than EMB_LIMIT is assumed away, i.e.
+/// the claim is bounded to signatures whose embedded-signature nesting depth is <= EMB_LIMIT (default 0).
+pub static mut EMB_DEPTH: u32 = 0;
+pub static mut EMB_LIMIT: u32 = 0;
+pub fn emb_enter() {
+    unsafe {
+        kani::assume(EMB_DEPTH < EMB_LIMIT);
+        EMB_DEPTH += 1;
+    }
+}
+pub fn emb_leave() {
+    unsafe {
+        EMB_DEPTH -= 1;
+    }
+}
+pub fn set_emb_limit(n: u32) {
+    unsafe {
+        EMB_LIMIT = n;
+    }
+}
+
+/// proof harness with the standard stub set
+macro_rules! vproof {
+    ($name:ident, $uw:expr, $body:block) => {
+        #[kani::proof]
+        #[kani::unwind($uw)]
+        #[kani::stub(std::fmt::format, crate::__verif_common::stub_format)]
+        #[kani::stub(snafu::backtrace_collection_enabled, crate::__verif_common::stub_bt)]
+        #[kani::stub(std::arch::x86_64::__cpuid_count, crate::__verif_common::stub_cpuid)]
+        fn $name() $body
+    };
+}
+pub(crate) use vproof;
 
 // ---------------------------------------------------------------------------------------------
 // Transcript digest: "digest equality <=> input equality" (ideal, collision-free hash).
@@ -48,12 +142,72 @@ impl<const K: usize> Pack<K> {
         }
         self.len += 1;
     }
+    /// loop-free for up to 24 bytes per call (longer updates set `over`): a per-byte loop here would
+    /// force a global unwind bound of 20+ on every other loop of the harness
     pub fn push(&mut self, data: &[u8]) {
-        let mut i = 0;
-        while i < data.len() {
-            self.push1(data[i]);
-            i += 1;
+        let n = data.len();
+        macro_rules! at {
+            ($i:expr) => {
+                if $i < n {
+                    self.push1(data[$i]);
+                }
+            };
         }
+        at!(0);
+        at!(1);
+        at!(2);
+        at!(3);
+        at!(4);
+        at!(5);
+        at!(6);
+        at!(7);
+        at!(8);
+        at!(9);
+        at!(10);
+        at!(11);
+        at!(12);
+        at!(13);
+        at!(14);
+        at!(15);
+        at!(16);
+        at!(17);
+        at!(18);
+        at!(19);
+        at!(20);
+        at!(21);
+        at!(22);
+        at!(23);
+        if n > 24 {
+            self.over = true;
+        }
+    }
+    /// straight-line (loop-free) packing of a slice of at most 12 bytes: harness-side loops would
+    /// otherwise force a larger global unwind bound than the code under test needs
+    pub fn of12(d: &[u8]) -> Self {
+        let mut p = Self::default();
+        macro_rules! at {
+            ($i:expr) => {
+                if $i < d.len() {
+                    p.push1(d[$i]);
+                }
+            };
+        }
+        at!(0);
+        at!(1);
+        at!(2);
+        at!(3);
+        at!(4);
+        at!(5);
+        at!(6);
+        at!(7);
+        at!(8);
+        at!(9);
+        at!(10);
+        at!(11);
+        if d.len() > 12 {
+            p.over = true;
+        }
+        p
     }
     pub fn same(&self, o: &Self) -> bool {
         let mut ok = self.len == o.len && !self.over && !o.over;
